@@ -4,6 +4,7 @@ import (
 	"bytes"
 	"fmt"
 	"math/big"
+	"strings"
 
 	"github.com/taurusgroup/multi-party-sig/pkg/ecdsa"
 	"github.com/taurusgroup/multi-party-sig/pkg/party"
@@ -22,7 +23,7 @@ func init() {
 			if tier == "thorough" {
 				return 40000
 			}
-			return 2000
+			return 3000
 		},
 		Run:  runC15,
 		Rule: "catalogue = (stored type: cmp.Config, frost.Config, frost.TaprootConfig, doerner.ConfigSender/Receiver, ecdsa.PreSignature, ecdsa.Signature, protocol.Message) x (disk fault: none, lost write (previous epoch survives), torn write (prefix new / suffix old), short write (truncation), bit flip, byte overwrite, zero-fill, structure-aware single-field corruption of the encoding (drop, null, zero, boundary values, type confusion, duplicate entry, swapped siblings)). One case = one history: produce the object by simulated sessions, persist a drawn subset of parties with the documented encoder on the simulated disk, crash them, inject the fault, restore, then run the next session (sign / online sign / refresh) together with parties that did not crash. No fault: restore succeeds, the object is semantically equal and the next session satisfies C01. Fault: restore errors, or yields an object that keeps the validity rules (non-zero secrets, non-identity points, threshold in range, own entry present and matching the secret, right-size odd moduli) and with which the next session produces no wrong result; never a panic, never a silently empty object. Non-trivial = bytes were actually restored through the library codec. Distinct = (type, fault kind, operator/path class, restore outcome).",
@@ -103,9 +104,37 @@ func validityProblems(p scen.Proto, cfg interface{}, id party.ID, n int) (class,
 
 // corrupt applies one disk fault to stored bytes; prev is the previous epoch's bytes (may be nil).
 func corrupt(c *fw.Ctx, cur, prev []byte) (out []byte, kind, detail string) {
-	kinds := []string{"bitflip", "overwrite", "short-write", "torn-write", "zero-fill", "lost-write", "field"}
+	kinds := []string{"bitflip", "overwrite", "short-write", "torn-write", "zero-fill", "lost-write", "field", "party-table"}
 	kind = kinds[c.S.Draw(len(kinds), "disk-fault")]
 	out = append([]byte{}, cur...)
+	if kind == "party-table" {
+		// damage aimed at the stored party table: an entry twice, an entry missing
+		kind = "field"
+		if tree, err := mut.Decode(cur); err == nil {
+			for _, n := range mut.Nodes(tree) {
+				cl := n.Path.Class()
+				var ops []string
+				switch {
+				case n.Shape == "array" && cl == ".Public":
+					ops = []string{"array-dup-elem", "array-remove-last", "array-dup-last"}
+				case n.Shape == "map" && (cl == ".VerificationShares" || cl == ".VerificationShares.@blob"):
+					ops = []string{"dup-map-key", "zero-length"}
+				default:
+					continue
+				}
+				op := ops[c.S.Draw(len(ops), "table-op")]
+				if !mut.Applicable(op, n) {
+					break
+				}
+				if t2, res, ok := mut.Apply(c.S, mut.Clone(tree), n, op, nil); ok {
+					if enc := mut.Encode(t2); !bytes.Equal(enc, cur) {
+						return enc, "field:" + op, res.Op + "@" + res.Path.Class()
+					}
+				}
+				break
+			}
+		}
+	}
 	switch kind {
 	case "bitflip":
 		pos := c.S.Draw(len(out)*8, "bit")
@@ -149,7 +178,7 @@ func corrupt(c *fw.Ctx, cur, prev []byte) (out []byte, kind, detail string) {
 			return out, "bitflip", "fallback"
 		}
 		nodes := mut.Nodes(tree)
-		ops := []string{"drop", "null", "zero-length", "zero-same-length", "boundary", "bitflip", "plus1", "swap-siblings", "type-uint", "type-negint", "type-bytes", "type-text", "array-dup-last", "array-remove-last", "negate-point", "truncate-1", "extend-1", "random-same-length"}
+		ops := []string{"drop", "null", "zero-length", "zero-same-length", "boundary", "bitflip", "plus1", "swap-siblings", "type-uint", "type-negint", "type-bytes", "type-text", "array-dup-last", "array-remove-last", "negate-point", "truncate-1", "extend-1", "random-same-length", "array-dup-elem", "dup-map-key"}
 		for try := 0; try < 10; try++ {
 			op := ops[c.S.Draw(len(ops), "op")]
 			var apps []mut.Node
@@ -177,13 +206,29 @@ func corrupt(c *fw.Ctx, cur, prev []byte) (out []byte, kind, detail string) {
 	return out, kind, detail
 }
 
+// dupPartyFault: the injected fault duplicated an entry of the stored party table.
+func dupPartyFault(typeName, kind, detail string) bool {
+	at := strings.LastIndex(detail, "@")
+	if at < 0 {
+		return false
+	}
+	class := detail[at+1:]
+	switch kind {
+	case "field:array-dup-last", "field:array-dup-elem":
+		return typeName == "*config.Config" && class == ".Public"
+	case "field:dup-map-key":
+		return class == ".VerificationShares" || class == ".VerificationShares.@blob"
+	}
+	return false
+}
+
 func runC15(c *fw.Ctx) {
 	if c.S.Draw(8, "c15-type") == 7 {
 		runC15Message(c)
 		return
 	}
 	// material + optional second artefact
-	p := drawProto(c, cmpRate(c, 40))
+	p := drawProto(c, cmpRate(c, 80))
 	n, t := drawNT(c, p, 5)
 	if p == scen.CMP && n > 3 {
 		n = 3
@@ -301,6 +346,12 @@ func runC15(c *fw.Ctx) {
 			continue
 		}
 		restored[id] = v
+		// a stored party table that lists one party twice is invalid material whatever the copies
+		// hold ("duplicate or missing parties"): it must be refused, not merged
+		if fault && id == victim && dupPartyFault(typeName, faultKind, faultDetail) {
+			c.Violate("duplicate-party-accepted/"+typeName, "restoring the %s of party %q succeeded although its stored party table lists a party twice (%s %s)", typeName, id, faultKind, faultDetail)
+			return
+		}
 	}
 	c.Res.NonTrivial = true
 	c.Res.Desc = fmt.Sprintf("%s n=%d t=%d type=%s crashed=%d fault=%s(%s) outcome=%s", p, n, t, typeName, len(crashed), faultKind, faultDetail, outcome)
@@ -354,6 +405,48 @@ func runC15(c *fw.Ctx) {
 		c.Res.DistinctID = fmt.Sprintf("%s/%s/%s", typeName, faultKind, outcome)
 	}
 	c.Probe("restore_outcome_"+outcome, 1)
+	// restore-only faults: the (expensive) material is re-used for several more damaged files, each
+	// judged by the restore-level rules only (no panic, no duplicate party, validity of what comes back)
+	if what == "config" {
+		for i := 0; i < 6; i++ {
+			id := ids[c.S.Draw(len(ids), "extra-victim")]
+			b, err := scen.Persist(objs[id])
+			if err != nil {
+				continue
+			}
+			var prev []byte
+			if prevBytes != nil {
+				prev = prevBytes[id]
+			}
+			b2, k2, d2 := corrupt(c, b, prev)
+			if b2 == nil {
+				continue
+			}
+			c.Fault("disk(restore-only):"+k2, 1)
+			v, err := scen.Restore(objs[id], b2)
+			if pe, isPanic := err.(*scen.PanicError); isPanic {
+				c.Violate("panic-in-restore@"+sim.LibFrame(pe.Stack)+"/"+typeName, "restoring %s of party %q panicked (%s %s): %s\n%s", typeName, id, k2, d2, pe.Value, pe.Stack)
+				return
+			}
+			if err != nil {
+				c.Probe("restore_only_refused", 1)
+				continue
+			}
+			if dupPartyFault(typeName, k2, d2) {
+				c.Violate("duplicate-party-accepted/"+typeName, "restoring the %s of party %q succeeded although its stored party table lists a party twice (%s %s)", typeName, id, k2, d2)
+				return
+			}
+			if scen.ResultDigest(p, v) != scen.ResultDigest(p, objs[id]) {
+				if class, prob := validityProblems(p, v, id, n); prob != "" {
+					c.Violate("invalid-object-restored/"+typeName+"/"+class, "restore accepted corrupted bytes (%s %s) and returned a %s that breaks the validity rules: %s", k2, d2, typeName, prob)
+					return
+				}
+				c.Probe("restore_only_accepted_different", 1)
+			} else {
+				c.Probe("restore_only_accepted_equal", 1)
+			}
+		}
+	}
 	if victimGone && len(after) <= t {
 		return
 	}
